@@ -30,7 +30,7 @@ try:
     meta["checks"] = {}
     for c in checks:
         t0 = time.time()
-        rc, out = sh("./bin/verif check %s --tier quick --repo %s --no-evidence" % (c, wt), cwd="/verif")
+        rc, out = sh(os.environ.get("VERIF_BIN", "./bin/verif") + " check %s --tier quick --repo %s --no-evidence" % (c, wt), cwd="/verif")
         viol = [l for l in out.splitlines() if l.startswith("VIOLATION")]
         meta["checks"][c] = dict(exit=rc, violation_lines=len(viol), wall_s=round(time.time() - t0), output_tail=out.strip().splitlines()[-4:])
         print("  check %s: exit=%d violations=%d (%ds)" % (c, rc, len(viol), time.time() - t0))
